@@ -543,20 +543,8 @@ def run(repo, chk):
     gotc = tuple(getattr(getattr(S.CONST, n), '__name__', '?') for n in names[:6])
     chk.expect(gotc == ('Const', 'ConstByte', 'Lwc', 'Lwco', 'Lbc', 'Lbco'), 'C09.M4', 'Section.CONST slots', f'{gotc}', ASM)
     # accessor get/set emissions (generators: read structurally)
-    acc = {
-        'StateByte': ("Lbs(r_out, self.immed)", "Sbs(self.immed, source)"),
-        'ConstByte': ("Lbc(r_out, self.immed)", None),
-        'Indirect': ("self.section.lwo(r_out, self.base, self.offset)", "self.section.swo(self.base, self.offset, source)"),
-        'IndirectByte': ("self.section.lbo(r_out, self.base, self.offset)", "self.section.sbo(self.base, self.offset, source)"),
-    }
-    for cls, (g, s_) in acc.items():
-        ms = repo.methods(ASM, cls)
-        gy =[src(n.value) for n in ast.walk(ms['get']) if isinstance(n, ast.Yield)] if 'get' in ms else []
-        gr = [src(n.value) for n in ast.walk(ms['get']) if isinstance(n, ast.Return)] if 'get' in ms else []
-        chk.expect(gy == [g] and gr == ['State(r_out)'], 'C09.M4', f'{cls}.get', f'{gy} -> {gr}', ASM)
-        if s_:
-            sy = [src(n.value) for n in ast.walk(ms['set']) if isinstance(n, ast.Yield)] if 'set' in ms else []
-            chk.expect(sy == [s_], 'C09.M4', f'{cls}.set', f'{sy}', ASM)
+    # accessor get / set emissions: decided by the interpreted accessor tabulation in rendering() for every accessor class
+    # (also with aliased registers), whichever base class holds the code
     # State.set / Accessor.to: decided by the interpreted accessor tabulation in rendering() (State.set, State.set self,
     # State.to, Indirect.to, IntLiteral.to, aliased cases)
     for p, ev in gf.inlined('eval_expr'):
